@@ -3,7 +3,9 @@
 package main
 
 import (
+	"bytes"
 	"encoding/binary"
+	"encoding/hex"
 	"fmt"
 	"math"
 	"sort"
@@ -39,33 +41,34 @@ func genUdpSplit(c *hx.Ctx) {
 	c.WriteFile("Consts_UdpSplit.v", sb.String())
 }
 
-func bytesList(ps [][]byte) string {
-	s := make([]string, len(ps))
-	for i, p := range ps {
-		s[i] = hx.Bytes(p)
-	}
-	return hx.List(s)
-}
-
 func runUdpSplit(c *hx.Ctx) {
-	cw := c.NewCaseWriter("From NV Require Import corr.UdpSplit_corr.", "UdpSplit_corr.case", "UdpSplit_corr.check_case", 250)
+	cw := c.NewCaseWriter("From Coq Require Import String.\nFrom NV Require Import corr.UdpSplit_corr.", "UdpSplit_corr.case", "UdpSplit_corr.check_case", 250)
+	hexs := func(b []byte) string { return "\"" + hex.EncodeToString(b) + "\"%string" }
 
 	addSplit := func(p []byte, seg int, kind string) {
 		pieces, alias, pan := udp.VerifDeliverSegments(p, seg)
 		lens := make([]int, len(pieces))
+		lensN := make([]uint64, len(pieces))
+		contentOK := true
+		off := 0
 		for i := range pieces {
 			lens[i] = len(pieces[i])
+			lensN[i] = uint64(len(pieces[i]))
+			if off+len(pieces[i]) > len(p) || !bytes.Equal(pieces[i], p[off:off+len(pieces[i])]) {
+				contentOK = false
+			}
+			off += len(pieces[i])
 		}
 		if len(lens) > 12 {
 			lens = append(lens[:6:6], lens[len(lens)-6:]...)
 		}
-		cw.Add(hx.App("UdpSplit_corr.CSplit", hx.Bytes(p), hx.Z(int64(seg)), bytesList(pieces), hx.Bool(alias), hx.Bool(pan)),
+		cw.Add(hx.App("UdpSplit_corr.CSplit", hexs(p), hx.Z(int64(seg)), hx.NList(lensN), hx.Bool(contentOK), hx.Bool(pan)),
 			kind, seg > 0 && seg < len(p),
-			map[string]any{"op": "split", "len": len(p), "seg": seg, "pieces": len(pieces), "piece_lens_head_tail": lens, "alias_ok": alias, "panicked": pan})
+			map[string]any{"op": "split", "len": len(p), "seg": seg, "pieces": len(pieces), "piece_lens_head_tail": lens, "content_ok": contentOK, "alias_ok": alias, "panicked": pan})
 	}
 	addCmsg := func(buf []byte, kind string) {
 		gso, pan := udp.VerifParseRecvCmsg(buf)
-		cw.Add(hx.App("UdpSplit_corr.CCmsg", hx.Bytes(buf), hx.Z(int64(gso)), hx.Bool(pan)), kind, gso != 0,
+		cw.Add(hx.App("UdpSplit_corr.CCmsg", hexs(buf), hx.Z(int64(gso)), hx.Bool(pan)), kind, gso != 0,
 			map[string]any{"op": "cmsg", "buf": hx.Ints(buf), "gso": gso, "panicked": pan})
 	}
 
